@@ -1557,7 +1557,8 @@ class WassersteinDistanceNewton(VariationalWassersteinDistance):
         )
 
         # Initialize distance in case below iteration fails
-        new_distance = 0
+        new_distance = self.l1_dissipation(solution_i[self.flux_slice])
+        failed = False
 
         # Initialize container for storing the convergence history
         convergence_history = {
@@ -1696,6 +1697,7 @@ class WassersteinDistanceNewton(VariationalWassersteinDistance):
                         break
             except Exception:
                 warnings.warn("Newton iteration abruptly stopped due to some error.")
+                failed = True
                 break
 
         # Summarize profiling (time in seconds, memory in GB)
@@ -1704,7 +1706,7 @@ class WassersteinDistanceNewton(VariationalWassersteinDistance):
 
         # Define performance metric
         info = {
-            "converged": iter < num_iter - 1,
+            "converged": not failed and iter < num_iter - 1,
             "number_iterations": iter,
             "convergence_history": convergence_history,
             "timings": total_timings,
@@ -1834,7 +1836,8 @@ class WassersteinDistanceBregman(VariationalWassersteinDistance):
         )
 
         # Initialize distance in case below iteration fails
-        new_distance = 0
+        new_distance = self.l1_dissipation(solution_i[self.flux_slice])
+        failed = False
 
         # Initialize container for storing the convergence history
         convergence_history = {
@@ -2064,6 +2067,7 @@ class WassersteinDistanceBregman(VariationalWassersteinDistance):
 
             except Exception:
                 warnings.warn("Bregman iteration abruptly stopped due to some error.")
+                failed = True
                 break
 
         # Solve for the pressure by solving a single Newton iteration
@@ -2082,7 +2086,7 @@ class WassersteinDistanceBregman(VariationalWassersteinDistance):
 
         # Define performance metric
         info = {
-            "converged": iter < num_iter - 1,
+            "converged": not failed and iter < num_iter - 1,
             "number_iterations": iter,
             "convergence_history": convergence_history,
             "timings": total_timings,
